@@ -19,6 +19,10 @@ def literal_dict_keys(rel, name):
 def grammar_labels(which):
     tree = parse_source(f'depccg/grammar/{which}.py')
     binary, unary = set(), set()
+    # labels kept as immutable module-level constants: NAME = ("fa", ">")
+    for st in tree.body:
+        if isinstance(st, ast.Assign) and isinstance(st.value, ast.Tuple) and len(st.value.elts) == 2 and all(isinstance(e, ast.Constant) and isinstance(e.value, str) for e in st.value.elts):
+            binary.add((st.value.elts[0].value, st.value.elts[1].value))
     for fn in tree.body:
         if not isinstance(fn, ast.FunctionDef):
             continue
@@ -50,6 +54,11 @@ def open_vocabulary(which):
     helper's own parameters: then the vocabulary cannot be enumerated from the source and the closure obligation below is undecided, not discharged"""
     tree = parse_source(f'depccg/grammar/{which}.py')
     funcs = [fn for fn in ast.walk(tree) if isinstance(fn, ast.FunctionDef)]
+    # immutable module-level constants holding a label, a symbol or a (label, symbol) pair
+    def _lit(v):
+        return isinstance(v, ast.Constant) or (isinstance(v, ast.Tuple) and all(isinstance(e, ast.Constant) for e in v.elts))
+    consts = {t.id for st in tree.body if isinstance(st, ast.Assign) and _lit(st.value) for t in st.targets if isinstance(t, ast.Name)} | \
+             {st.target.id for st in tree.body if isinstance(st, ast.AnnAssign) and st.value is not None and _lit(st.value) and isinstance(st.target, ast.Name)}
     helpers = {}
     for fn in funcs:
         names = [a.arg for a in fn.args.posonlyargs + fn.args.args]
@@ -63,6 +72,9 @@ def open_vocabulary(which):
         for st in ast.walk(fn):
             if isinstance(st, ast.Assign) and len(st.targets) == 1 and isinstance(st.targets[0], ast.Name):
                 assigned.setdefault(st.targets[0].id, []).append(st.value)
+            if isinstance(st, ast.Assign) and len(st.targets) == 1 and isinstance(st.targets[0], ast.Tuple) and all(isinstance(e, ast.Name) for e in st.targets[0].elts):
+                for e in st.targets[0].elts:          # a, b = pair: each target is as fixed as the pair
+                    assigned.setdefault(e.id, []).append(st.value)
 
         def fixed(e, depth=0):
             if isinstance(e, ast.Constant):
@@ -73,6 +85,10 @@ def open_vocabulary(which):
                 return fixed(e.body, depth) and fixed(e.orelse, depth)
             if isinstance(e, ast.Name) and e.id in params:
                 return True          # passed through: the call sites of this helper are looked at in their own right
+            if isinstance(e, ast.Name) and e.id in consts and e.id not in assigned:
+                return True          # a module-level constant (harvested)
+            if isinstance(e, (ast.Subscript, ast.Starred)) and isinstance(e.value, ast.Name) and (e.value.id in consts or e.value.id in params):
+                return True          # an element of such a constant / of a passed-through pair
             if isinstance(e, ast.Call) and getattr(e.func, 'id', None) == '_unary_rule_symbol':
                 return True          # its returns are harvested
             return False
